@@ -32,7 +32,12 @@ import (
 func init() {
 	addRun("C18", "written files (xref tables and xref/object streams, Flate/LZW/ASCII85/RunLength streams, shared, chained and cyclic references, merged field/widget dictionaries) read by 2-4 goroutines sharing one Reader and Extractor with random mixes of Reader.Get / DecodeStream / Decode / DecodeExclusive / StoreOrLoadPair; each result compared with the same call made alone; pointer identity per (reference, type) across goroutines. A case is one file x goroutine mix; non-trivial when at least two goroutines touched a common reference.", runConcFiles)
 	addRun("C18", "independent Writers and Readers in parallel goroutines versus sequentially (identical bytes / objects), concurrent use of the predefined-CMap and CID-mapping caches; thorough tier: all real-concurrency runs repeated in a -race build, races are violations. A case is one batch of files.", runConcParallel)
-	addRun("C18race", "child process of C18 (race-detector build)", func(c *Ctx) { runConcFirstLoads(c); runConcFiles(c); runConcParallelInner(c); runConcPoolGoroutines(c, 300) })
+	addRun("C18race", "child process of C18 (race-detector build)", func(c *Ctx) {
+		runConcFirstLoads(c)
+		runConcFiles(c)
+		runConcParallelInner(c)
+		runConcPoolGoroutines(c, 300)
+	})
 	addReplay("C18", "files", replayConcFiles)
 	addReplay("C18", "parallel", func(string) (bool, string) {
 		return true, "not replayable deterministically: re-run ./check C18 thorough"
@@ -45,14 +50,15 @@ func init() {
 // ---------------------------------------------------------------- documents
 
 type concDoc struct {
-	data    []byte
-	nodes   []pdf.Reference // DAG of nodes (Kids point to later nodes)
-	chains  []pdf.Reference // objects whose value is a reference (into nodes)
-	cyc     []pdf.Reference // nodes on reference cycles
-	streams []pdf.Reference
-	merged  []pdf.Reference                 // merged field/widget dictionaries
-	chainTo map[pdf.Reference]pdf.Reference // chain link -> the node at the end of its chain
-	desc    string
+	data     []byte
+	nodes    []pdf.Reference // DAG of nodes (Kids point to later nodes)
+	chains   []pdf.Reference // objects whose value is a reference (into nodes)
+	cyc      []pdf.Reference // nodes on reference cycles
+	streams  []pdf.Reference
+	merged   []pdf.Reference                 // merged field/widget dictionaries
+	chainTo  map[pdf.Reference]pdf.Reference // chain link -> the node at the end of its chain
+	password string
+	desc     string
 }
 
 func concPatternBytes(r *Rand, n int) []byte {
@@ -79,11 +85,15 @@ func concPatternBytes(r *Rand, n int) []byte {
 }
 
 func concMakeDoc(r *Rand, big bool) (*concDoc, error) {
-	d := &concDoc{}
+	return concMakeDocEnc(r, big, Pick(r, []pdf.Version{pdf.V1_4, pdf.V1_7, pdf.V2_0}), "")
+}
+
+// concMakeDocEnc writes the test document with a given version and (optionally) encrypted.
+func concMakeDocEnc(r *Rand, big bool, v pdf.Version, password string) (*concDoc, error) {
+	d := &concDoc{password: password}
 	buf := &bytes.Buffer{}
-	v := Pick(r, []pdf.Version{pdf.V1_4, pdf.V1_7, pdf.V2_0})
 	id := bytes.Repeat([]byte{byte(r.U64())}, 16)
-	opt := &pdf.WriterOptions{ID: [][]byte{id, id}, HumanReadable: r.P(1, 4)}
+	opt := &pdf.WriterOptions{ID: [][]byte{id, id}, HumanReadable: r.P(1, 4), UserPassword: password, OwnerPassword: password}
 	w, err := pdf.NewWriter(buf, v, opt)
 	if err != nil {
 		return nil, err
@@ -173,7 +183,7 @@ func concMakeDoc(r *Rand, big bool) (*concDoc, error) {
 				kids = append(kids, kid)
 			}
 		}
-		dict := pdf.Dict{"V": pdf.Integer(i), "Kids": kids}
+		dict := pdf.Dict{"V": pdf.Integer(i), "Kids": kids, "L": pdf.String(fmt.Sprintf("label of node %d", i))}
 		if r.P(1, 3) {
 			dict["Data"] = d.streams[r.Intn(len(d.streams))]
 		}
